@@ -22,9 +22,13 @@ var keyTokens = append(append([]string{}, gen.TokJSONKey...), "\a", "\v", "\x1b"
 func itemGen() *rapid.Generator[gen.Item] {
 	anyItem := gen.AnyItem(gen.TokJSONKey, 1)
 	long := gen.BoundaryString(gen.TokJSONKey)
+	hot := gen.ExpandingString([]string{"\"", "\\", "\x01", "\u2028", "<", "\n", "\xff", "\U0001f469"})
 	return rapid.Custom(func(t *rapid.T) gen.Item {
 		if gen.Rarely(t, "long", 150) {
 			return gen.S(long.Draw(t, "longv"))
+		}
+		if gen.Rarely(t, "hot", 20) {
+			return gen.S(hot.Draw(t, "hot-text")) // every one of these becomes a longer escape sequence
 		}
 		switch rapid.IntRange(0, 19).Draw(t, "special") {
 		case 0:
@@ -35,7 +39,7 @@ func itemGen() *rapid.Generator[gen.Item] {
 			return gen.Item{K: "nil"}
 		}
 		it := anyItem.Draw(t, "item")
-		if it.K == "f64" && it.FS != "" && rapid.IntRange(0, 2).Draw(t, "keep-nonfinite") > 0 {
+		if (it.K == "f64" || it.K == "f32") && (it.FS == "nan" || it.FS == "+inf" || it.FS == "-inf") && rapid.IntRange(0, 2).Draw(t, "keep-nonfinite") > 0 {
 			it.FS = "" // keep unencodable floats rare so that most cases render
 		}
 		return it
@@ -58,14 +62,15 @@ func caseGen() *rapid.Generator[Case] {
 		return gen.S(gen.StringOf(keyTokens, min, 2).Draw(t, "key"))
 	})
 	opts := gen.ScriptOpts{
-		Item:     itemGen(),
-		HdrItem:  key,
-		MinOps:   0,
-		MaxOps:   max,
-		MaxCells: 3,
-		HdrCells: [2]int{2, 6},
-		ForceHdr: true,
-		Creators: []string{"core", "json", "json", "csv"},
+		Item:        itemGen(),
+		HdrItem:     key,
+		MinOps:      0,
+		MaxOps:      max,
+		MaxCells:    3,
+		HdrCells:    [2]int{2, 6},
+		ForceHdr:    true,
+		AllowMutate: true,
+		Creators:    []string{"core", "json", "json", "csv"},
 	}
 	withHdr := gen.ScriptGen(opts)
 	opts.ForceHdr, opts.HdrCells = false, [2]int{0, 4}
